@@ -44,9 +44,10 @@ Definition astate0 : astate := mkAS false false false "" empty_rest [] "" "" [] 
 Definition new_api_listener (st : astate) : astate :=
   mkAS false false false "" empty_rest [] "" "" [] "" "".
 
-(* text[1:len(text)-1]; None is the slice-bounds panic *)
+(* removeQuotes: text[1:len(text)-1], a text of fewer than two characters is kept (it used to be a
+   slice-bounds panic, hence the option) *)
 Definition strip1 (t : string) : option string :=
-  if Nat.ltb (String.length t) 2 then None else Some (take (String.length t - 2) (drop 1 t)).
+  if Nat.ltb (String.length t) 2 then Some t else Some (take (String.length t - 2) (drop 1 t)).
 
 Definition set_verb (r : rest_entry) (v : string) : rest_entry :=
   mkRest (r_uri r) v (r_method r) (r_body r) (r_pkg r) (r_class r).
